@@ -20,7 +20,7 @@ pub fn dispatch(mode: &str, kind: &str, input: Option<&Value>) -> Option<Value> 
 }
 
 /// Component alphabet: bytes below and above '/', multi-byte UTF-8, shared prefixes.
-const COMPS: &[&str] = &["a", "ab", "a.b", "a b", "b", "é", "éa", "日", "-", "~", "a-", "0"];
+const COMPS: &[&str] = &["a", "ab", "a.b", "a b", "b", "é", "éa", "日", "-", "~", "a-", "0", "a\\b"];
 
 pub fn gen_paths(max_depth: usize) -> Vec<String> {
     let mut out = vec!["/".to_string()];
